@@ -144,8 +144,21 @@ func (ctl *Control) handleReqWorkConn(_ msg.Message) {
 		return
 	}
 
+	// A work connection that is still waiting for StartWorkConn belongs to this session: close it when
+	// the session ends, otherwise (without tcpMux, silent server) it stays open with this goroutine for ever.
+	startRead := make(chan struct{})
+	go func() {
+		select {
+		case <-ctl.doneCh:
+			workConn.Close()
+		case <-startRead:
+		}
+	}()
+
 	var startMsg msg.StartWorkConn
-	if err = msg.ReadMsgInto(workConn, &startMsg); err != nil {
+	err = msg.ReadMsgInto(workConn, &startMsg)
+	close(startRead)
+	if err != nil {
 		xl.Tracef("work connection closed before response StartWorkConn message: %v", err)
 		workConn.Close()
 		return
